@@ -27,6 +27,7 @@ def handle (line : String) : String :=
     | some s => showLex (lex Gen.lexTables s)
     | none => "bad-hex"
   | "filter" :: rest => Wire.runFilter rest
+  | "bans" :: rest => Wire.runBans rest
   | "run" :: rest =>
     match Wire.decodeReq rest with
     | some r => Wire.runReq r
